@@ -341,17 +341,27 @@ fn clip(s: &str) -> String {
 }
 
 /// Why an accepted string differs from its canonical encoding (specific class signature).
+/// The two Bech32 classes are decided on the 5-bit groups themselves: everything but the last
+/// data group (resp. everything but the last group plus one superfluous group) must coincide, so
+/// that any other way of being non-canonical gets a class of its own.
 fn noncanonical_class(trimmed: &str, canonical: &str) -> &'static str {
     if trimmed.to_lowercase() == canonical && trimmed != canonical {
-        "case"
-    } else if trimmed.len() == canonical.len() {
-        // same length, different characters: the 5-bit padding of the last data group (and with it
-        // the checksum) differs
+        return "case";
+    }
+    let (Some(sa), Some(sb)) = (trimmed.rfind('1'), canonical.rfind('1')) else {
+        return "payload-differs";
+    };
+    if trimmed[..sa] != canonical[..sb] || trimmed.len() < sa + 7 || canonical.len() < sb + 7 {
+        return "payload-differs";
+    }
+    let da = &trimmed.as_bytes()[sa + 1..trimmed.len() - 6];
+    let db = &canonical.as_bytes()[sb + 1..canonical.len() - 6];
+    if da.len() == db.len() && !db.is_empty() && da[..db.len() - 1] == db[..db.len() - 1] {
         "bech32-padding-bits"
-    } else if trimmed.len() > canonical.len() {
+    } else if da.len() == db.len() + 1 && !db.is_empty() && da[..db.len() - 1] == db[..db.len() - 1] {
         "bech32-extra-group"
     } else {
-        "other"
+        "payload-differs"
     }
 }
 
